@@ -188,6 +188,66 @@ def parse (ts : List Tok) : Parsed :=
     | .ok c [] => .tree c
     | .ok _ (_ :: _) => .err
 
+/-! ### the documented condition grammar as a printer
+
+Ranks: 2 comparison (or a parenthesised condition), 1 AND chain, 0 OR chain.  AND binds tighter than
+OR; an AND chain is one n-ary node, so an AND/OR operand of an AND is parenthesised; OR chains nest
+to the right (`A OR B OR C` = `A OR (B OR C)`), so only the left operand of an OR that is itself an
+OR is parenthesised. -/
+
+def lpT : Tok := { ty := .lp, text := "(" }
+def rpT : Tok := { ty := .rp, text := ")" }
+def andT : Tok := { ty := .and, text := "AND" }
+def orT : Tok := { ty := .or, text := "OR" }
+def CmpOp.tok (o : CmpOp) : Tok := { ty := .cmp o, text := "" }
+def argTok (a : String) : Tok := { ty := .expr, text := a }
+
+def Leaf.render : Leaf → List Tok
+  | .num b => [{ ty := .number, text := "", bits := b }]
+  | .expr f ft args => { ty := .expr, text := f, func := ft } :: args.map argTok
+
+def Cond.level : Cond → Nat
+  | .cmp _ _ _ => 2
+  | .and _ _ _ => 1
+  | .or _ _ => 0
+
+/-- put the printed body of `c` into a context of rank `lvl` -/
+def wrapC (lvl : Nat) (c : Cond) (body : List Tok) : List Tok :=
+  if lvl ≤ c.level then body else lpT :: (body ++ [rpT])
+
+def renderBody : Cond → List Tok
+  | .cmp o l r => l.render ++ o.tok :: r.render
+  | .and c1 c2 rest => wrapC 2 c1 (renderBody c1) ++ andT :: (wrapC 2 c2 (renderBody c2) ++ renderTail rest)
+  | .or l r => wrapC 1 l (renderBody l) ++ orT :: wrapC 0 r (renderBody r)
+where
+  /-- the further operands of an AND chain, each preceded by `AND` -/
+  renderTail : List Cond → List Tok
+    | [] => []
+    | c :: cs => andT :: (wrapC 2 c (renderBody c) ++ renderTail cs)
+
+def renderAt (lvl : Nat) (c : Cond) : List Tok := wrapC lvl c (renderBody c)
+def render (c : Cond) : List Tok := renderAt 0 c
+
+/-- arguments the parser returns unchanged (no leading quote to strip) -/
+def plainArgs (args : List String) : Prop := ∀ a ∈ args, stripQuotes a = a
+
+/-- trees of the documented grammar: the left-hand side of a comparison is an expression, the
+right-hand side a number or an expression without function type; arguments are unquoted -/
+def WFC : Cond → Prop
+  | .cmp _ l r =>
+    (match l with
+     | .expr _ _ args => plainArgs args
+     | .num _ => False) ∧
+    (match r with
+     | .num _ => True
+     | .expr _ ft args => ft = 0 ∧ plainArgs args)
+  | .and c1 c2 rest => WFC c1 ∧ WFC c2 ∧ WFCs rest
+  | .or l r => WFC l ∧ WFC r
+where
+  WFCs : List Cond → Prop
+    | [] => True
+    | c :: cs => WFC c ∧ WFCs cs
+
 /-! ### Result and its set algebra -/
 
 /-- `std::set_union` on two sorted ranges -/
